@@ -554,6 +554,7 @@ type treeGen struct {
 	emptyLL    bool // allow non-nil empty leaf-lists
 	emptyConts bool // allow empty non-presence containers
 	nastyStr   bool // strings drawn from the nasty alphabet
+	bigBin     bool // unrestricted binary values of a kilobyte and more now and then
 	leafCount  int
 }
 
@@ -643,10 +644,14 @@ func (g *treeGen) genString(t *yang.YangType, inUnion bool) string {
 			s = b.String()
 		} else if g.nastyStr && !inUnion && g.rng.Intn(2) == 0 {
 			s = randValue(g.rng, 6, nastyRunes)
+		} else if g.rng.Intn(12) == 0 {
+			// the text of the gNMI wildcard as an ordinary value: as a list key it is a literal
+			// wherever the caller did not ask for wildcard handling
+			s = "*"
 		} else {
 			s = randIdent(g.rng)
 		}
-		if inUnion {
+		if inUnion && s != "*" {
 			s = "s" + s // never parses as a number / bool / enum name of the corpus
 		}
 		n := uint64(len([]rune(s)))
@@ -699,6 +704,9 @@ func (g *treeGen) genBinary(t *yang.YangType) []byte {
 	if len(t.Length) > 0 {
 		p := t.Length[g.rng.Intn(len(t.Length))]
 		n = int(p.Min.Value) + g.rng.Intn(int(p.Max.Value-p.Min.Value)+1)
+	} else if g.bigBin && g.rng.Intn(5) == 0 {
+		// around the sizes at which an encoder working in blocks starts a new block
+		n = pick(g.rng, []int{1023, 1024, 1025, 1536, 2049, 3100})
 	}
 	b := make([]byte, n)
 	for i := range b {
